@@ -324,10 +324,12 @@ def cline_aligned(rows, b, lo, hi):
 # ---------------------------------------------------------------------------
 # lists
 # ---------------------------------------------------------------------------
-def build_list(ast, m, dev=()):
-    """ast = [kind, [item, ...]], item = [term(0/1), ctype, sublist|None] -> (source, expected 'list' segment)"""
+def build_list(ast, m, dev=(), loose=0):
+    """ast = [kind, [item, ...]], item = [term(0/1), ctype, sublist|None] -> (source, expected 'list' segment)
+    loose: blank lines after \\begin, between items and before \\end (the usual way lists are typed)"""
     kind, items = ast
-    out = ['\\begin{%s}\n' % kind]
+    sep = '\n' if loose else ''
+    out = ['\\begin{%s}\n%s' % (kind, sep)]
     exp = []
     for term, ctype, sub in items:
         s = '\\item'
@@ -357,18 +359,18 @@ def build_list(ast, m, dev=()):
             s += ' %s\n%s\n' % (a, ts)
             segs = (T(a), te)
         elif ctype == 'NB':
-            ss, se = build_list(sub, m, dev)
-            s += '\n' + ss
+            ss, se = build_list(sub, m, dev, loose)
+            s += '\n' + sep + ss
             segs = (se,)
         elif ctype == 'NT':
             a = m()
-            ss, se = build_list(sub, m, dev)
+            ss, se = build_list(sub, m, dev, loose)
             b = m()
             s += ' %s\n%s%s\n' % (a, ss, b)
             segs = (T(a), se, T(b))
         else:
             raise ValueError(ctype)
-        out.append(s)
+        out.append(s + sep)
         exp.append((t, segs))
     out.append('\\end{%s}\n' % kind)
     return ''.join(out), ('list', kind, tuple(exp))
@@ -383,7 +385,7 @@ def build(case, dev=()):
     wrap = case.get('wrap', 'bare')
     if case['fam'] == 'list':
         a = m()
-        s, e = build_list(case['ast'], m, dev)
+        s, e = build_list(case['ast'], m, dev, case.get('loose', 0))
         b = m()
         src = '%s\n%s%s\n' % (a, s, b)
         exp = (T(a), e, T(b))
